@@ -4,7 +4,16 @@ package lib
 // splitmix64; every random choice of a driver derives from one state.
 type RNG struct{ s uint64 }
 
-func NewRNG(seed uint64) *RNG { return &RNG{s: seed*0x9E3779B97F4A7C15 + 0x1234567} }
+func NewRNG(seed uint64) *RNG {
+	// the state is a hash of the seed: with a linear map the streams of
+	// neighbouring seeds are shifts of one another (splitmix64 advances the
+	// state by the same odd constant) and re-synchronise after a few draws
+	z := seed + 0x9E3779B97F4A7C15
+	z = (z ^ (z >> 30)) * 0xBF58476D1CE4E5B9
+	z = (z ^ (z >> 27)) * 0x94D049BB133111EB
+	z = z ^ (z >> 31)
+	return &RNG{s: z*0x9E3779B97F4A7C15 + 0x1234567}
+}
 
 func (r *RNG) U64() uint64 {
 	r.s += 0x9E3779B97F4A7C15
